@@ -347,6 +347,7 @@ func parseEmbed(t *Tree, start Pos) (Node, error) {
 		return nil, err
 	}
 	t.pushBlockStack()
+	top := []*BlockNode{}
 	for {
 		tok := t.nextNonSpace()
 		if tok.tokenType == tokenEOF {
@@ -378,16 +379,20 @@ func parseEmbed(t *Tree, start Pos) (Node, error) {
 				if err != nil {
 					return nil, err
 				}
-				if _, ok := n.(*BlockNode); !ok {
+				blk, ok := n.(*BlockNode)
+				if !ok {
 					return nil, newUnexpectedTokenError(tok)
 				}
+				top = append(top, blk)
 			} else {
 				return nil, newUnexpectedValueError(tok, "endembed or block")
 			}
 		}
 	}
 	blockRefs := t.popBlockStack()
-	return NewEmbedNode(expr, with, only, blockRefs, start), nil
+	n := NewEmbedNode(expr, with, only, blockRefs, start)
+	n.top = top
+	return n, nil
 }
 
 // parseIncludeOrEmbed parses an include or embed tag's parameters.
